@@ -15,8 +15,9 @@ META = {
             "length 4 x Accept-Encoding up to 1, 121,060 cases) for Accept-Encoding and X-VGI-Accept-Encoding x every server encode set, proves the "
             "declarative rule equal to its operational form and checks the table-sanity invariants on every case; "
             "each case is rendered into real header strings (case variants, q-parameters, blanks, absent vs empty "
-            "header) and sent to real apps built by make_wsgi_app, on a unary call and on a producer continuation "
-            "(pre-compressed path); TLC judges every observation with Negotiate!Conforms.",
+            "header) and sent to real apps built by make_wsgi_app, on a unary call and, in rotation, on a producer continuation "
+            "(pre-compressed path), a tiny unary result, producer / exchange init, an exchange turn, an RPC error, a 404 "
+            "and a 400 (all kinds for the shortest cases), plus the requests issued by the repository's own client; TLC judges every observation with Negotiate!Conforms.",
     "note": "Trusted: Negotiate.tla's reading of the statement (preference order = VGI list then generic list; a coding "
             "offered on both headers may be announced on either); the rendering of abstract tokens into header text; "
             "q-parameters are rendered non-increasing along the list so list order and q order agree; the {zstd}-only "
